@@ -22,6 +22,30 @@ def optional(arg, generator):
     return generator() if arg is None else arg
 
 
+class _NameSet(dict):
+    """insertion ordered set of names: the iteration order fixes the order of the scope
+    dictionary and by that the names given to unnamed signals/variables, it must not
+    depend on the hash of the strings (PYTHONHASHSEED)"""
+
+    def __init__(self, names=()):
+        super().__init__(dict.fromkeys(names))
+
+    def add(self, name):
+        self[name] = None
+
+    def update(self, names):
+        for name in names:
+            self[name] = None
+
+    def __or__(self, other):
+        result = _NameSet(self)
+        result.update(other)
+        return result
+
+    def __sub__(self, other):
+        return _NameSet(name for name in self if name not in other)
+
+
 class _ClassifyNames(ast.NodeVisitor):
     """
     process a block of code and determine, which names are local
@@ -92,9 +116,9 @@ class _ClassifyNames(ast.NodeVisitor):
                 self.local_names.add(handler.name)
 
     def __init__(self, args, body: list | ast.AST):
-        self.used_names: set[str] = set()
-        self.local_names: set[str] = set(args)
-        self._explicit_nonlocal: set[str] = set()
+        self.used_names: _NameSet = _NameSet()
+        self.local_names: _NameSet = _NameSet(args)
+        self._explicit_nonlocal: _NameSet = _NameSet()
 
         # explicitly mark __class__ as used
         # (required by super() call)
